@@ -529,3 +529,36 @@ def replay_known(k):
         return None
     fn, a = p['fn'], norm(p['arg'])
     return oracle(fn, a, FUNCS[fn][1](a))
+
+# ----------------------------------------------------------------------------------------
+# thorough tier: extraction cross-checked against the kernel's evaluator.  A sample of the cases is
+# evaluated by `vm_compute` inside Coq (dispatch = the very term that is extracted) and compared with
+# what the extracted OCaml runner printed for the same cases.
+def _coq_sexp(v):
+    if isinstance(v, int):
+        return '(A (%d))' % v
+    return '(L [' + '; '.join(_coq_sexp(x) for x in v) + '])'
+
+def extra_checks(ck, tier, rng):
+    if tier != 'thorough':
+        return
+    import os, re as _re
+    sample = []
+    r2 = random.Random(ck.seed)
+    for i, (stream, fn, a) in enumerate(gen('quick', random.Random(ck.seed))):
+        if r2.random() < 0.0012 and len(sx(norm(a))) < 400:
+            sample.append((fn, norm(model_arg(fn, norm(a)))))
+    outs = ck.model.run(sample, ck.rundir, shards=1)
+    src = open(os.path.join(COQ, 'Extr', 'C12.v')).read()
+    src = _re.sub(r'^\s*(Require Extraction|Require Import ExtrOcamlBasic|Extraction [^\n]*)\.?\s*$', '', src, flags=_re.M)
+    lines = [src, 'Local Open Scope Z_scope.']
+    for i, ((fn, a), o) in enumerate(zip(sample, outs)):
+        lines.append('Example xc_%d : dispatch (%d) %s = %s. Proof. vm_compute. reflexivity. Qed.' % (i, fn, _coq_sexp(a), _coq_sexp(o)))
+    path = os.path.join(ck.rundir, 'XCheckC12.v')
+    open(path, 'w').write('\n'.join(lines) + '\n')
+    rc, log = coqc_file(path, ck.rundir)
+    fails = []
+    if rc != 0:
+        fails.append(('vm_compute evaluation of dispatch differs from the extracted runner (or the file failed to compile)', log[-1500:], False))
+    yield {'name': 'vm_compute_crosscheck', 'evaluations': len(sample), 'failures': fails,
+           'info': 'dispatch evaluated by vm_compute inside Coq on a sample of the quick stream equals the output of the extracted OCaml runner'}
